@@ -5,7 +5,7 @@ import json, os, subprocess, sys, importlib, tempfile, shutil
 from concurrent.futures import ThreadPoolExecutor
 sys.path.insert(0, '/verif')
 seeds = [int(a) for a in sys.argv[1:]] or [1, 2, 3, 4, 5, 6]
-ids = ['C%02d' % i for i in range(1, 21)]
+ids = os.environ.get('IDS', '').split() or ['C%02d' % i for i in range(1, 21)]
 root = tempfile.mkdtemp(prefix='health_')
 def run(job):
     pid, seed = job
